@@ -99,7 +99,7 @@ theorem tuple_step (f : Nat) (v : Val R) (rest : List (Val R))
     (h1 : VmTupleRef_serialize mk f rest = (serTupleRef mk rest).map (fun b => (b, rest)))
     (h2 : VmStackValue_serialize mk f v = (serVal mk v).map (fun b => (b, v))) :
     VmTuple_serialize mk (f + 1) (v :: rest) = (serTuple mk (v :: rest)).map (fun b => (b, v :: rest)) := by
-  ser_norm [VmTuple_serialize, serTuple, h1, h2, Py.RL.init, Py.RL.last?]
+  ser_norm [VmTuple_serialize, serTuple, h1, h2, Py.RL.init, Py.RL.last?, Py.RL.setLast]
 
 mutual
 theorem src_serVal : ∀ (v : Val R) (fuel : Nat), sV v ≤ fuel →
@@ -142,7 +142,7 @@ theorem src_serTupleRef : ∀ (vs : List (Val R)) (fuel : Nat), sT vs + 1 ≤ fu
   | [v], fuel, hf => by
     simp only [sT] at hf
     obtain ⟨f, rfl, h1⟩ := fuel_pred hf
-    ser_norm [VmTupleRef_serialize, serTupleRef, src_serVal v f (by omega), Py.RL.first?]
+    ser_norm [VmTupleRef_serialize, serTupleRef, src_serVal v f (by omega), Py.RL.first?, Py.RL.setFirst]
   | v :: w :: rest, fuel, hf => by
     obtain ⟨f, rfl, h1⟩ := fuel_pred hf
     simp only [sT] at h1
